@@ -21,6 +21,75 @@ def rets(ctx, f):
     return [(blk, e, ctx.pc_strs(f, blk)) for blk, e in ctx.ret_exprs(f)]
 
 
+def location_rules(ctx, P):
+    """Rules on how location paths are built and handed down (shared by C02: every leaf names its outer-to-inner path)."""
+    # ---- into_vec / flatten
+    f = ctx.fn(E + "into_vec")
+    if f:
+        fm = ctx.find_calls(f, r"Iterator>::flat_map")
+        ctx.ob(P + ".into_vec.flat-map", f.key, "flat_map", len(fm) == 1, "%d flat_map calls" % len(fm))
+        for blk, t in fm:
+            ctx.requires(P + ".into_vec.bundle-recurses", f, blk, "flat_map", [r"discr\(self\.kind\)=Multiple$"])
+            src = ctx.expr(f, t["args"][0])
+            ctx.ob(P + ".into_vec.iterates-own-children", f.key, "flat_map source", src.endswith("into_iter((self.kind as Multiple).0)"), "iterates %s" % src)
+            clo = ctx.expr(f, t["args"][1])
+            ctx.ob(P + ".into_vec.passes-locations", f.key, "closure captures self.locations", "closure" in clo and "self.locations" in clo, clo)
+        rs = rets(ctx, f)
+        leaf = [(e, pc) for _, e, pc in rs if "box_assume_init_into_vec" in e]
+        has_self_array = any(st["r"]["k"] == "aggregate" and st["r"]["agg"] == "array" and [ctx.expr(f, o) for o in st["r"]["ops"]] == ["self"] for _, _, st in f.stmts() if st["k"] == "assign")
+        ctx.ob(P + ".into_vec.leaf-is-singleton", f.key, "vec![self]", len(leaf) == 1 and has_self_array and all(ctx._sat(d, r"discr\(self\.kind\)=\('not-in', \('Multiple',\)\)") for d in leaf[0][1]),
+               "leaf arm returns a one-element vector holding self")
+        coll = [e for _, e, pc in rs if "::collect(" in e]
+        ctx.ob(P + ".into_vec.collects-in-order", f.key, "collect()", len(coll) == 1 and "flat_map" in coll[0], "returns %s" % [e[:100] for e in coll])
+        cl = ctx.closures_of(f)
+        okc = False
+        detail = "no closure calls prepend_at exactly once and then recurses into into_vec"
+        for c in cl:
+            pre = ctx.find_calls(c, r"Error::prepend_at$")
+            rec = ctx.find_calls(c, r"Error::into_vec$")
+            if len(pre) == 1 and len(rec) == 1:
+                a0, a1 = ctx.expr(c, pre[0][1]["args"][0]), ctx.expr(c, pre[0][1]["args"][1])
+                r0 = ctx.expr(c, rec[0][1]["args"][0])
+                # the value handed to the recursive call derives from the prepend_at result
+                # (possibly through further `error = error.with_…(..)` steps)
+                from .C01 import _sources
+                s_, _ = ctx.sym(c)
+                pdest = pre[0][1]["dest"]["local"]
+                srcs = _sources(c, s_, s_.operand(rec[0][1]["args"][0]))
+                derives = r0.startswith("darling_core::error::Error::prepend_at(a2") or pdest in srcs
+                okc = a0 == "a2" and "clone(locations)" in a1.replace("self.0", "locations") and derives and c.dominates(pre[0][0], rec[0][0])
+                detail = "prepend_at(%s, %s); into_vec(%s) derives from prepend_at: %s" % (a0, a1, r0[:80], derives)
+        ctx.ob(P + ".into_vec.child-gets-ancestor-path", f.key, "closure: prepend_at(child, bundle locations) then recurse", okc, detail)
+    f = ctx.fn(E + "flatten")
+    if f:
+        rs = [e for _, e in ctx.ret_exprs(f)]
+        ctx.ob(P + ".flatten.def", f.key, "return", rs == ["darling_core::error::Error::multiple(darling_core::error::Error::into_vec(self))"], "returns %s" % rs)
+    # ---- prepend_at / at
+    f = ctx.fn(E + "prepend_at")
+    if f:
+        ext = ctx.find_calls(f, r"Extend<.*>>::extend")
+        ok = len(ext) == 1 and ctx.expr(f, ext[0][1]["args"][0]) == "a2" and ctx.expr(f, ext[0][1]["args"][1]) == "self.locations"
+        ctx.ob(P + ".prepend_at.ancestors-first", f.key, "locations.extend(self.locations)", ok, "extend(%s)" % [(ctx.expr(f, t["args"][0]), ctx.expr(f, t["args"][1])) for _, t in ext])
+        asg = ctx.find_field_assigns(f, "locations", 1)
+        ok = len(asg) == 1 and ctx.expr(f, asg[0][2]["r"]) == "a2" and f.dominates(ext[0][0], asg[0][0]) if ext else False
+        ctx.ob(P + ".prepend_at.stores-combined", f.key, "self.locations = locations", ok, "assignments %s" % [ctx.expr(f, a[2]["r"]) for a in asg])
+        for blk, i, st in asg:
+            ctx.requires(P + ".prepend_at.only-when-nonempty", f, blk, "self.locations = …", [r"is_empty\(a2\)=False"])
+        rs = [e for _, e in ctx.ret_exprs(f)]
+        ctx.ob(P + ".prepend_at.returns-self", f.key, "return", rs == ["self"], "returns %s" % rs)
+    f = ctx.fn(E + "at")
+    if f:
+        ins = ctx.find_calls(f, r"Vec::<T, A>::insert$")
+        ok = len(ins) == 1 and ctx.expr(f, ins[0][1]["args"][0]) == "self.locations" and ctx.expr(f, ins[0][1]["args"][1]) == "0_usize" and "to_string(a2)" in ctx.expr(f, ins[0][1]["args"][2])
+        ctx.ob(P + ".at.inserts-at-front", f.key, "locations.insert(0, location.to_string())", ok, "insert(%s)" % [[ctx.expr(f, a) for a in t["args"]] for _, t in ins])
+        rs = [e for _, e in ctx.ret_exprs(f)]
+        ctx.ob(P + ".at.returns-self", f.key, "return", rs == ["self"], "returns %s" % rs)
+    f = ctx.fn(E + "at_path")
+    if f:
+        rs = [e for _, e in ctx.ret_exprs(f)]
+        ctx.ob(P + ".at_path.def", f.key, "return", rs == ["darling_core::error::Error::at(self, darling_core::util::path_to_string::path_to_string(a2))"], "returns %s" % rs)
+
+
 def run(ctx):
     # ---- len
     f = ctx.fn(K + "::len")
@@ -54,71 +123,7 @@ def run(ctx):
         rs = [e for _, e in ctx.ret_exprs(f)]
         ok = any(re.search(r"expect\(alloc::vec::Vec::<T, A>::pop\(a1\)", e) for e in rs) and any("Error::new(" in e and "Multiple{a1}" in e for e in rs)
         ctx.ob("C04.multiple.values", f.key, "returns", ok, "returns %s" % rs)
-    # ---- into_vec / flatten
-    f = ctx.fn(E + "into_vec")
-    if f:
-        fm = ctx.find_calls(f, r"Iterator>::flat_map")
-        ctx.ob("C04.into_vec.flat-map", f.key, "flat_map", len(fm) == 1, "%d flat_map calls" % len(fm))
-        for blk, t in fm:
-            ctx.requires("C04.into_vec.bundle-recurses", f, blk, "flat_map", [r"discr\(self\.kind\)=Multiple$"])
-            src = ctx.expr(f, t["args"][0])
-            ctx.ob("C04.into_vec.iterates-own-children", f.key, "flat_map source", src.endswith("into_iter((self.kind as Multiple).0)"), "iterates %s" % src)
-            clo = ctx.expr(f, t["args"][1])
-            ctx.ob("C04.into_vec.passes-locations", f.key, "closure captures self.locations", "closure" in clo and "self.locations" in clo, clo)
-        rs = rets(ctx, f)
-        leaf = [(e, pc) for _, e, pc in rs if "box_assume_init_into_vec" in e]
-        has_self_array = any(st["r"]["k"] == "aggregate" and st["r"]["agg"] == "array" and [ctx.expr(f, o) for o in st["r"]["ops"]] == ["self"] for _, _, st in f.stmts() if st["k"] == "assign")
-        ctx.ob("C04.into_vec.leaf-is-singleton", f.key, "vec![self]", len(leaf) == 1 and has_self_array and all(ctx._sat(d, r"discr\(self\.kind\)=\('not-in', \('Multiple',\)\)") for d in leaf[0][1]),
-               "leaf arm returns a one-element vector holding self")
-        coll = [e for _, e, pc in rs if "::collect(" in e]
-        ctx.ob("C04.into_vec.collects-in-order", f.key, "collect()", len(coll) == 1 and "flat_map" in coll[0], "returns %s" % [e[:100] for e in coll])
-        cl = ctx.closures_of(f)
-        okc = False
-        detail = "no closure calls prepend_at exactly once and then recurses into into_vec"
-        for c in cl:
-            pre = ctx.find_calls(c, r"Error::prepend_at$")
-            rec = ctx.find_calls(c, r"Error::into_vec$")
-            if len(pre) == 1 and len(rec) == 1:
-                a0, a1 = ctx.expr(c, pre[0][1]["args"][0]), ctx.expr(c, pre[0][1]["args"][1])
-                r0 = ctx.expr(c, rec[0][1]["args"][0])
-                # the value handed to the recursive call derives from the prepend_at result
-                # (possibly through further `error = error.with_…(..)` steps)
-                from .C01 import _sources
-                s_, _ = ctx.sym(c)
-                pdest = pre[0][1]["dest"]["local"]
-                srcs = _sources(c, s_, s_.operand(rec[0][1]["args"][0]))
-                derives = r0.startswith("darling_core::error::Error::prepend_at(a2") or pdest in srcs
-                okc = a0 == "a2" and "clone(locations)" in a1.replace("self.0", "locations") and derives and c.dominates(pre[0][0], rec[0][0])
-                detail = "prepend_at(%s, %s); into_vec(%s) derives from prepend_at: %s" % (a0, a1, r0[:80], derives)
-        ctx.ob("C04.into_vec.child-gets-ancestor-path", f.key, "closure: prepend_at(child, bundle locations) then recurse", okc, detail)
-    f = ctx.fn(E + "flatten")
-    if f:
-        rs = [e for _, e in ctx.ret_exprs(f)]
-        ctx.ob("C04.flatten.def", f.key, "return", rs == ["darling_core::error::Error::multiple(darling_core::error::Error::into_vec(self))"], "returns %s" % rs)
-    # ---- prepend_at / at
-    f = ctx.fn(E + "prepend_at")
-    if f:
-        ext = ctx.find_calls(f, r"Extend<.*>>::extend")
-        ok = len(ext) == 1 and ctx.expr(f, ext[0][1]["args"][0]) == "a2" and ctx.expr(f, ext[0][1]["args"][1]) == "self.locations"
-        ctx.ob("C04.prepend_at.ancestors-first", f.key, "locations.extend(self.locations)", ok, "extend(%s)" % [(ctx.expr(f, t["args"][0]), ctx.expr(f, t["args"][1])) for _, t in ext])
-        asg = ctx.find_field_assigns(f, "locations", 1)
-        ok = len(asg) == 1 and ctx.expr(f, asg[0][2]["r"]) == "a2" and f.dominates(ext[0][0], asg[0][0]) if ext else False
-        ctx.ob("C04.prepend_at.stores-combined", f.key, "self.locations = locations", ok, "assignments %s" % [ctx.expr(f, a[2]["r"]) for a in asg])
-        for blk, i, st in asg:
-            ctx.requires("C04.prepend_at.only-when-nonempty", f, blk, "self.locations = …", [r"is_empty\(a2\)=False"])
-        rs = [e for _, e in ctx.ret_exprs(f)]
-        ctx.ob("C04.prepend_at.returns-self", f.key, "return", rs == ["self"], "returns %s" % rs)
-    f = ctx.fn(E + "at")
-    if f:
-        ins = ctx.find_calls(f, r"Vec::<T, A>::insert$")
-        ok = len(ins) == 1 and ctx.expr(f, ins[0][1]["args"][0]) == "self.locations" and ctx.expr(f, ins[0][1]["args"][1]) == "0_usize" and "to_string(a2)" in ctx.expr(f, ins[0][1]["args"][2])
-        ctx.ob("C04.at.inserts-at-front", f.key, "locations.insert(0, location.to_string())", ok, "insert(%s)" % [[ctx.expr(f, a) for a in t["args"]] for _, t in ins])
-        rs = [e for _, e in ctx.ret_exprs(f)]
-        ctx.ob("C04.at.returns-self", f.key, "return", rs == ["self"], "returns %s" % rs)
-    f = ctx.fn(E + "at_path")
-    if f:
-        rs = [e for _, e in ctx.ret_exprs(f)]
-        ctx.ob("C04.at_path.def", f.key, "return", rs == ["darling_core::error::Error::at(self, darling_core::util::path_to_string::path_to_string(a2))"], "returns %s" % rs)
+    location_rules(ctx, "C04")
     # ---- Display
     f = ctx.fn("<darling_core::error::Error as core::fmt::Display>::fmt")
     if f:
